@@ -16,7 +16,10 @@ ALL = ["C%02d" % i for i in range(1, 19)]
 
 def order_for(path):
     def rest(first):
-        return first + [c for c in ALL if c not in first]
+        # only the checks that observe the mutated file (MUT_ALL=1: every check, most relevant first)
+        if os.environ.get("MUT_ALL"):
+            return first + [c for c in ALL if c not in first]
+        return first
     if path.startswith("encoding/bcd"):
         return rest(["C12", "C05", "C02", "C01", "C18"])
     if path.startswith("encoding/UTO311"):
